@@ -4,6 +4,7 @@ import (
 	"bytes"
 	"context"
 	"fmt"
+	"github.com/aperturerobotics/bifrost/pubsub/util/pubmessage"
 
 	"github.com/aperturerobotics/bifrost/hash"
 	"github.com/aperturerobotics/bifrost/peer"
@@ -50,7 +51,7 @@ func init() {
 		Cfg:        defaultCfg,
 		Real:       []string{"signaling/rpc/client.Client (session routine: handleRecv signature + sender check, handleOpen/Close/Ack/Clear, Recv, retry with backoff)", "signaling.SessionMsg.ExtractAndVerify / peer.SignedMsg"},
 		Stub:       []string{"the relay is a scripted adversary (no real Server in this scenario)", "srpc transport replaced by simulator-owned message streams", "util/broadcast lock instrumented"},
-		FaultKinds: []string{"fault:replay", "fault:bitflip", "fault:truncate", "fault:alter-field", "fault:forged-claims-A", "fault:reattributed", "fault:wrong-context", "fault:unsigned", "fault:empty-body", "fault:unsolicited-control", "fault:stream-reset", "fault:clock-jump"},
+		FaultKinds: []string{"fault:replay", "fault:bitflip", "fault:truncate", "fault:alter-field", "fault:forged-claims-A", "fault:reattributed", "fault:wrong-context", "fault:cross-context-replay", "fault:unsigned", "fault:empty-body", "fault:unsolicited-control", "fault:stream-reset", "fault:clock-jump"},
 	})
 }
 
@@ -138,7 +139,7 @@ func (w *c19World) recvMsg(sm *signaling.SessionMsg) {
 	w.sendResp(&signaling.SessionResponse{Body: &signaling.SessionResponse_RecvMsg{RecvMsg: sm}})
 }
 
-var c19Kinds = []string{"honest", "honest", "honest", "replay", "same-signature-new-data", "embedded-pubkey", "bitflip", "truncate", "alter-data", "alter-sender", "forged-claims-A", "reattributed", "wrong-context", "unsigned", "empty-body", "ctl-open", "ctl-close", "ctl-ack", "ctl-clear"}
+var c19Kinds = []string{"honest", "honest", "honest", "replay", "same-signature-new-data", "embedded-pubkey", "bitflip", "truncate", "alter-data", "alter-sender", "forged-claims-A", "reattributed", "wrong-context", "cross-context-replay", "unsigned", "empty-body", "ctl-open", "ctl-close", "ctl-ack", "ctl-clear"}
 
 func (w *c19World) inject(s *dsim.Sim, kind string) {
 	A, M := w.cw.Parties["A"], w.cw.Parties["M"]
@@ -239,6 +240,21 @@ func (w *c19World) inject(s *dsim.Sim, kind string) {
 	case "wrong-context":
 		w.n++
 		inner, _ := peer.NewSignedMsg("bifrost/pubsub another context", A.Priv, hash.HashType_HashType_BLAKE3, []byte(fmt.Sprintf("ctx-%d", w.n)))
+		sm := &signaling.SessionMsg{SignedMsg: inner, Seqno: uint64(w.n)}
+		note(sm)
+		w.recvMsg(sm)
+	case "cross-context-replay":
+		// a message A really signed, for another purpose (a pubsub publication), which B's
+		// own process has already verified in THAT context; the relay replays the identical
+		// signed message as a signaling message
+		w.n++
+		inner, _, err := pubmessage.NewPubMessage("some-channel", A.Priv, hash.HashType_HashType_BLAKE3, []byte(fmt.Sprintf("pubsub-%d", w.n)))
+		if err != nil {
+			panic(err)
+		}
+		if _, _, _, err := pubmessage.ExtractAndVerify(inner); err != nil {
+			panic(err)
+		}
 		sm := &signaling.SessionMsg{SignedMsg: inner, Seqno: uint64(w.n)}
 		note(sm)
 		w.recvMsg(sm)
